@@ -17,6 +17,8 @@ SYNTH_DIR = __import__("os").path.join(C.SCRATCH, "synth")
 
 def npz_path(ds=None):
     import os
+    if ds and os.path.isdir(ds):          # a data set directory (random data sets)
+        return os.path.join(ds, "decay_data.npz")
     return os.path.join(SYNTH_DIR, "decay_data.npz") if ds == "synth" else \
         os.path.join(C.REPO, "radioactivedecay/icrp107_ame2020_nubase2020/decay_data.npz")
 
@@ -36,7 +38,7 @@ def extreme_parents(ds=None):
     if ds in _EXT:
         return _EXT[ds]
     import os, numpy as np, scipy.sparse as sp
-    base = SYNTH_DIR if ds == "synth" else os.path.join(C.REPO, "radioactivedecay/icrp107_ame2020_nubase2020")
+    base = ds if (ds and os.path.isdir(ds)) else (SYNTH_DIR if ds == "synth" else os.path.join(C.REPO, "radioactivedecay/icrp107_ame2020_nubase2020"))
     names, _ = names_of(ds)
     out, zeros = set(), set()
     for f in ("c_scipy.npz", "c_inv_scipy.npz"):
@@ -155,8 +157,12 @@ def gen_cases(rng, names, stable, n_single, n_mixed, cls, cum_every=3, tmax=30, 
             cases.append({"cls": cls, "contents": {x: float(round(10 ** rng.uniform(5, 20), 3)).hex() for x in members}, "unit": "num",
                           "t": float(round(10 ** rng.uniform(0, 9), 3)).hex(), "tunit": "s", "kind": "closed"})
     if ds:
+        import os
         for c in cases:
-            c["ds"] = ds
+            if os.path.isdir(ds):
+                c["ds"], c["ds_dir"] = "rand", ds
+            else:
+                c["ds"] = ds
     for i, c in enumerate(cases):
         c["cum"] = (i % cum_every == 0) or c.get("kind") in ("history", "closed")
         c["zero"] = (i % 10 == 0) and "pre" not in c
@@ -174,7 +180,7 @@ def closure_of(names, progeny, start):
     return seen
 
 
-def decay_stream(rng, cases, checker, tag, streams, viol, samples, what, shard=24, py_pred=None, ds=None, pre=None):
+def decay_stream(rng, cases, checker, tag, streams, viol, samples, what, shard=24, py_pred=None, ds=None, pre=None, extra_q=()):
     import numpy as np
     import os
     d = np.load(npz_path(ds), allow_pickle=True)
@@ -217,7 +223,7 @@ def decay_stream(rng, cases, checker, tag, streams, viol, samples, what, shard=2
             continue
         terms.append(term(c, r, idx))
         tidx.append(k)
-    bad, errs = Q.run_cases(tag, pre or PRE, "dcase", terms, checker, shard=shard, timeout=3000)
+    bad, errs = Q.run_cases(tag, pre or PRE, "dcase", terms, checker, shard=shard, timeout=3000, extra_q=extra_q)
     streams[tag] = {"cases": len(cases), "evaluated_in_coq": len(terms), "outside_bound": len(bad),
                     "impl_property_failures": len(bad_prop), "coq_errors": len(errs), "what": what,
                     "chain_sizes": {"max": max((len(r.get("out", {})) for r in impl), default=0)}}
